@@ -50,7 +50,9 @@ def cases(tier, seed):
             for form in ("1d", "2d"):
                 for order in ("desc_n", "desc_e", "desc_both", "unsorted"):
                     yield dict(kind="grid", nn=nn, ne=ne, form=form, nd=2, nx=1, dims="default", dtype="float", order=order)
-            for bad in ("non_meshgrid_e", "non_meshgrid_n", "mixed", "names_short", "names_long", "extra_names_short",
+            for nanpat in ("one", "row", "all_vars_cell"):
+                yield dict(kind="grid", nn=nn, ne=ne, form="2d", nd=2, nx=1, dims="default", dtype="float", nan=nanpat)
+            for bad in ("non_meshgrid_e", "non_meshgrid_n", "mixed", "names_short", "names_long", "extra_names_short", "extra_names_long",
                         "extra_names_none", "data_names_none"):
                 yield dict(kind="invalid", nn=max(nn, 2), ne=max(ne, 2), bad=bad)
             for order in ("ne", "en"):
@@ -93,6 +95,17 @@ def run(case, rec):
         extras = [_values(7 + k, nn, ne, "float", mem) for k in range(nx)]
         coords = ((e2, n2) if case["form"] == "2d" else (east, north)) + tuple(extras)
         data = tuple(_values(v + 1, nn, ne, dt, mem) for v in range(nd))
+        if case.get("nan"):
+            # masked cells stay cells: one row per cell, NaN where the grid is NaN (seed C18-r2_1)
+            data = tuple(np.array(d, dtype=float, copy=True) for d in data)
+            if case["nan"] == "one":
+                data[0][0, 0] = np.nan
+            elif case["nan"] == "row":
+                data[0][-1, :] = np.nan
+                data[1][-1, :] = np.nan
+            else:
+                for d in data:
+                    d[nn // 2, ne // 2] = np.nan
         names = ["var%d" % v for v in range(nd)]
         xnames = ["x%d" % k for k in range(nx)]
         kw = dict(dims=dims)
@@ -118,7 +131,7 @@ def run(case, rec):
                 for i in range(nn):
                     for j in range(ne):
                         val = ds[name].sel({dims[0]: north[i], dims[1]: east[j]}).values
-                        if val != data[v][i, j]:
+                        if not (val == data[v][i, j] or (np.isnan(val) and np.isnan(data[v][i, j]))):
                             ok = False
             for k, name in enumerate(xnames):
                 for i in range(nn):
@@ -208,6 +221,8 @@ def run(case, rec):
             f = lambda: vd.make_xarray_grid((e2, n2), data, ["d", "e"])
         elif bad == "extra_names_short":
             f = lambda: vd.make_xarray_grid((e2, n2, data, data), data, "d", extra_coords_names="up")
+        elif bad == "extra_names_long":
+            f = lambda: vd.make_xarray_grid((e2, n2, data), data, "d", extra_coords_names=["up", "time", "quality"])
         elif bad == "extra_names_none":
             f = lambda: vd.make_xarray_grid((e2, n2, data), data, "d")
         else:
@@ -232,6 +247,7 @@ def _check_table(rec, tab, dims, north, east, data, extras):
         if tab[dims[0]].values[r] != north[i] or tab[dims[1]].values[r] != east[j]:
             ok = False
         for name, arr in list(data.items()) + list(extras.items()):
-            if tab[name].values[r] != arr[i, j]:
+            tv = tab[name].values[r]
+            if not (tv == arr[i, j] or (tv != tv and arr[i, j] != arr[i, j])):
                 ok = False
     rec.check(ok, "table rows are not the row-major cells with their own coordinates and values")
